@@ -861,5 +861,32 @@ func main() {
 				}
 			}
 		}
+		// 9. two levels of asynchronous work among siblings: three object fields of one kind (Batch or
+		// Go), each with a Batch or Go child: the children of ALL siblings must be invoked before the
+		// executor goes idle again, so that one Batch resolver's invocations arrive in one call
+		for _, pk := range []struct {
+			kind kindT
+			bkey int
+		}{{kBatch, 0}, {kGo, 0}} {
+			for _, ck := range []struct {
+				kind kindT
+				bkey int
+			}{{kBatch, 1}, {kBatch, 0}, {kGo, 0}} {
+				for rep := 0; rep < 4; rep++ {
+					pk, ck := pk, ck
+					gmp := gmps[idx%len(gmps)]
+					idx++
+					h.Case(func(r *rng.R) sexp.Node {
+						var roots []*fnode
+						for i := 0; i < 3; i++ {
+							child := &fnode{kind: ck.kind, bkey: ck.bkey, leaf: true, mode: rng.Pick(r, []int{mFree, mEarly, mLate}), rank: 10 + i}
+							roots = append(roots, &fnode{kind: pk.kind, bkey: pk.bkey, mode: rng.Pick(r, []int{mFree, mEarly, mLate}), rank: i,
+								children: []*fnode{child}})
+						}
+						return runCase(roots, gmp, [nBatch]int{})
+					})
+				}
+			}
+		}
 	})
 }
